@@ -101,7 +101,7 @@ func zzC12TLS12ProcessServerHello() {
 }
 
 //verif:harness C12 checked_offer_is_the_wire_offer unwind=4000 instrs=600000000 paths=60000 wall=900
-//verif:stub (*math/rand.Rand).Shuffle zzStubShuffle
+//verif:stub (*math/rand.Rand).Shuffle zzStubShuffleIdentity
 //verif:expect end
 //verif:doc Glue between the decision kernels above (which check the server's choice against the client's internal hello state) and the property (which speaks of the on-wire ClientHello): for every predefined parrot with all randomness symbolic, the internal state the kernels consult - cipher suites, compression methods, session id, supported groups, signature algorithms, ALPN protocols, key-share groups and keys, supported versions, PSK modes, certificate-compression algorithms - equals, element for element, what the strict reference parser reads from the bytes on the wire (for every such extension that is on the wire).
 func zzC12CheckedOfferIsTheWireOffer() {
